@@ -444,5 +444,6 @@ pub fn debug(args: &crate::common::Args) {
     let tier = args.tier;
     let r = worker::isolated(move || run_case(&c, choices, profile(tier))).unwrap();
     println!("obs={}", r.observation);
+    println!("trace={:?}", r.trace.iter().map(|p| format!("{}:{}/{}", p.kind, p.chosen, p.alternatives)).collect::<Vec<_>>());
     println!("violations={:#?}", r.violations);
 }
